@@ -636,12 +636,6 @@ func init() {
 			{"session_manager.go", "SessionManager", "get", "sessMgrGet"},
 			{"session_manager.go", "SessionManager", "delLocal", "sessMgrDelLocal"},
 			{"session_manager.go", "SessionManager", "delDB", "sessMgrDelDB"},
-			// extension mqtt round 2 (fixes/C16-own-delete-event.patch): the bookkeeping of own deletes
-			{"session_manager.go", "SessionManager", "addOwnDelete", "sessMgrAddOwnDelete"},
-			{"session_manager.go", "SessionManager", "takeOwnDelete", "sessMgrTakeOwnDelete"},
-			{"broker.go", "Broker", "watchDelete", "watchDelete"},
-			{"broker.go", "Broker", "reconnectWatcher", "reconnectWatcher"},
-			{"broker.go", "Broker", "httpDeleteSessionHandler", "httpDeleteSessionHandler"},
 			{"session_manager.go", "SessionManager", "newSessionFromConn", "sessMgrNewSessionFromConn"},
 			{"session_manager.go", "SessionManager", "doStore", "sessMgrDoStore"},
 			{"topic.go", "TopicManager", "subscribe", "topicMgrSubscribe"},
